@@ -20,6 +20,13 @@ def run(ctx: Ctx) -> None:
     ctx.floor("T17.values", 2)
     ctx.floor("T10.lame", 8)
     ctx.floor("T17.inverse-consistency", 4)
+    # the inverse leg of inverse_consistency_loss evaluates a dense field at arbitrary points (transform_points -> warp_points -> sample_flow):
+    # points beyond the outermost samples get the border value, so that an exact inverse pair (e.g. two constant fields) has zero error
+    # up to the boundary (shared with C06)
+    from ..tables import t67_transforms
+    with ctx.only("T67.point-vs-grid"):
+        t67_transforms.run_point_vs_grid_route(ctx)
+    ctx.floor("T67.point-vs-grid", 2)
     from ..tables import t5_derivs
     # the regularisers are sums over spatial_derivatives: per-image spacing rows and the spline derivative mode (shared with C12)
     with ctx.only("T5.batch-spacing"):
